@@ -186,7 +186,8 @@ pub fn decode_plan(c: &mut Cur) -> Plan {
 
 fn decode_mutation(c: &mut Cur) -> c01::Mutation {
     use c01::Mutation::*;
-    match c.pick(31) {
+    match c.pick(32) {
+        31 => TimestampLeapSecond(c.bool()),
         0 => Method(c.u16()),
         1 => UriChar(c.u16(), c.u16()),
         2 => UriInsert(c.u16(), c.u16()),
